@@ -581,6 +581,10 @@ class Ops:
                     continue
                 half = 1 << (v.w - 1)
                 s2 = s.copy()
+                if s.ctx.limits.get('sig'):
+                    # step-table extraction: which sign piece a path belongs to is part of its decision signature
+                    s.tags['_piece'] = s.tags.get('_piece', '') + '+'
+                    s2.tags['_piece'] = s2.tags.get('_piece', '') + '-'
                 if s.store.assume_ge0(v.a.neg().add(half - 1)):
                     nxt.append(s)
                 if s2.store.assume_ge0(v.a.sub(half)):
